@@ -8,7 +8,7 @@ the library's recovery path and must give the section view of the intact image.
 """
 import json
 
-from ..core import env, runner, forkpool, elfraw, elfedit, elfbuild
+from ..core import env, runner, forkpool, elfraw, elfedit, elfbuild, dwsynth
 from ..core.prng import substream, run_seed, digest as pdigest, h64
 from ..core.simdisk import SimStream, SimFS, IOClock
 from ..core.canon import canon, digest as cdigest, exc_obs, jsonable
@@ -276,6 +276,9 @@ def _c11_gen(seed, tier, index):
         n, cfg, params = plan[index]
         return dict(engine=ENGINE, mode='C11', file=n, config=cfg, params=params or {}, seeded=None)
     rs = run_seed(seed, 'C11', tier, index)
+    if substream(rs, 'kind').random() < 0.15:
+        # a synthetic payload stored plainly and dwz-style (strings moved behind a supplementary link), own writer
+        return dict(engine=ENGINE, mode='C11', file='synthsup:%d' % index, config='supsplit', params={}, seeded=rs)
     r = substream(rs, 'cfg')
     n = r.choice(_ST['elig'])
     dbg = _ST['info'][n]['debug']
@@ -352,6 +355,73 @@ def _diff_views(a, b):
     return sorted(k for k in set(a) | set(b) if a.get(k) != b.get(k))
 
 
+def _entries_view(data, peers, order, follow=True, loader=True):
+    """(tag, [(attribute, value)]) of every entry of every unit; `order`: units and entries visited forwards, backwards (entries
+    fetched by offset in descending order) or top entry last."""
+    from elftools.elf.elffile import ELFFile
+    clock = IOClock()
+    fs = SimFS(clock)
+    for path, pdata in (peers or {}).items():
+        fs.add(path, pdata)
+    elf = ELFFile(SimStream(data, 'main', clock), fs.loader if loader else None)
+    dw = elf.get_dwarf_info(follow_links=follow)
+    out = []
+    for cu in dw.iter_CUs():
+        if order == 0:
+            dies = [d for d in cu.iter_DIEs() if not d.is_null()]
+        else:
+            offs = [d.offset for d in dw.get_CU_at(cu.cu_offset).iter_DIEs() if not d.is_null()]
+            dw2 = ELFFile(SimStream(data, 'main', clock), fs.loader if loader else None).get_dwarf_info(follow_links=follow)
+            cu2 = dw2.get_CU_at(cu.cu_offset)
+            seq = list(reversed(offs)) if order == 1 else offs[1:] + offs[:1]
+            got = {o: cu2.get_DIE_from_refaddr(o) for o in seq}
+            dies = [got[o] for o in offs]
+        out.append([[d.tag, [[k, _norm(a.value)] for k, a in d.attributes.items()]] for d in dies])
+    return out, clock.seq, list(fs.loads)
+
+
+def _norm(x):
+    if isinstance(x, (list, tuple)):
+        return [_norm(y) for y in x]
+    if isinstance(x, bytes):
+        return 'hex:' + x.hex()
+    return x
+
+
+def _c11_supsplit(spec):
+    """One logical payload, stored in one file and dwz-style behind a supplementary link: identical entries, and equal to what
+    the writer encoded."""
+    rs = spec['seeded']
+    b = dwsynth.build(substream(rs, 'image'))
+    order = substream(rs, 'order').randrange(3)
+    violations = []
+
+    def viol(check, expected, observed):
+        violations.append(dict(key='supsplit|%s' % check, check=check, expected=expected, observed=observed))
+    truth = [_norm(b['truth'])]
+    st, plain = _try(lambda: _entries_view(b['plain'], {}, order))
+    st2, split = _try(lambda: _entries_view(b['main'], {b['supname']: b['sup']}, order))
+    sim = 0
+    loads = []
+    if st != 'ok':
+        viol('plain-rejected', 'the entries of the plain file', jsonable(plain, 300))
+    elif plain[0] != truth:
+        viol('plain-differs', 'the encoded entries', _first_diff(truth[0], plain[0][0] if plain[0] else []))
+    if st2 != 'ok':
+        viol('rejected', 'the entries of the file with the supplementary link', jsonable(split, 300))
+    else:
+        sim = split[1]
+        loads = split[2]
+        if b['supname'] not in loads:
+            viol('sup-not-loaded', 'the supplementary file asked from the loader', [x.decode('latin-1') for x in loads])
+        if st == 'ok' and split[0] != plain[0]:
+            viol('view-differs|entries', 'identical entries in both storage forms', _first_diff(plain[0][0] if plain[0] else [], split[0][0] if split[0] else []))
+    return dict(spec=spec, violations=violations, digest=pdigest('supsplit', split[0] if st2 == 'ok' else 'exc'), nontrivial=True,
+                nt_digest=pdigest('supsplit', b['main'], order), evaluations=1, sim_time=sim,
+                faults={'strings_behind_supplementary_link': [1, int(bool(loads))]},
+                probes={'cfg_supsplit': 1, 'supsplit_dwarf_v%d' % b['desc']['version']: 1, 'supsplit_link_' + b['desc']['link']: 1}, sample=None)
+
+
 def _c11_corpus_link(spec):
     """The shipped stripped-main / debug-file pair, the debug file served through the loader seam."""
     name = spec['file']
@@ -421,6 +491,8 @@ def _c11_exec2(spec):
     cfg = spec['config']
     if cfg.startswith('corpus_link'):
         return _c11_corpus_link(spec)
+    if cfg == 'supsplit':
+        return _c11_supsplit(spec)
     p = spec.get('params') or {}
     data = env.corpus_bytes(name)
     violations = []
